@@ -11,8 +11,10 @@
     C06_outside_unchanged  C06_shift_and_fill  C06_wrap_marks
     C06_scrollback_append  C06_scrollback_untouched
     C06_decstbm  C06_only_scrolls_grow  C06_scroll_feeds_only_from_row0  C06_alt_keeps_none
+    C06_region_persists  C06_region_persists_feed
 -/
 import Avt.Lemmas.C06Props
+import Avt.Lemmas.C06Margins
 
 namespace Avt.Props.C06
 open Avt Avt.Spec Avt.Spec.C06 Avt.C06L
@@ -293,5 +295,59 @@ example : exT.execute .lf = some
 /-- DL on row 0 of the primary screen feeds the scrollback -/
 example : ((scrollCmdSpec { exT with cursor := { col := 0, row := 0 } } (.dl 2)).buffer.sb)
     = [exRow 0x7a false, exRow 0x61 true, exRow 0x62 true] := by decide
+
+/-! ### the region is state: only DECSTBM, the resets and a resize change it -/
+
+/-- **Function level.**  A function other than DECSTBM, DECSTR, RIS and XTWINOPS (`setsMargins`)
+    leaves the scroll region exactly as it was — every terminal state, every geometry, no invariant
+    needed.  In particular entering and leaving the alternate screen (DECSET / DECRST 47, 1047,
+    1049), after whatever resize happened in between, keeps the region. -/
+theorem C06_region_persists {t t' : Terminal} {f : Function} (hf : setsMargins f = false)
+    (h : t.execute f = some t') :
+    t'.topMargin = t.topMargin ∧ t'.bottomMargin = t.bottomMargin :=
+  Avt.C06M.frame hf h
+
+/-- **Call level.**  If none of the functions the parser emits for the input (from the parser state
+    the call starts in) sets the margins, then the fold of `execute` over them, per-character
+    `Vt::feed`, `Vt.feedAll` and `Vt::feed_str` (which ends with `changes()` + `gc()`) all leave the
+    region as it was.  This is the clause `region-persists` of the oracle (`Spec.C06.checkStep`). -/
+theorem C06_region_persists_feed {v : Vt} {xs : List Nat}
+    (hf : ∀ f ∈ Frame.emitted v.parser xs, setsMargins f = false) :
+    (∀ t', Terminal.foldM' Terminal.execute (Frame.emitted v.parser xs) v.terminal = some t' →
+        t'.topMargin = v.terminal.topMargin ∧ t'.bottomMargin = v.terminal.bottomMargin)
+    ∧ (∀ v', v.feedAll xs = some v' →
+        v'.terminal.topMargin = v.terminal.topMargin ∧ v'.terminal.bottomMargin = v.terminal.bottomMargin)
+    ∧ (∀ v' ch, v.feedStr xs = some (v', ch) →
+        v'.terminal.topMargin = v.terminal.topMargin ∧ v'.terminal.bottomMargin = v.terminal.bottomMargin)
+    ∧ (∀ c v', xs = [c] → v.feed c = some v' →
+        v'.terminal.topMargin = v.terminal.topMargin ∧ v'.terminal.bottomMargin = v.terminal.bottomMargin) :=
+  ⟨fun _ h => Avt.C06M.frame_many hf h,
+   fun _ h => Avt.C06M.feedAll_mrg xs hf h,
+   fun _ _ h => Avt.C06M.feedStr_mrg hf h,
+   fun _ _ e h => Avt.C06M.feed_mrg (by rw [← e]; exact hf) h⟩
+
+/-! the hypotheses are satisfiable: a 4x4 terminal with region rows 1..2 (`CSI 2;3 r`) enters the
+    alternate screen (`CSI ?1047h`), is resized there (width only: 6x4), and leaves it again
+    (`CSI ?1047l`): none of the two switches emits a margin-setting function, and the region is still
+    rows 1..2 of a screen of 4 rows — a proper sub-range -/
+
+private def exRegion : Option (Vt × Vt × Vt) := do
+  let v ← Vt.new 4 4 none
+  let (v0, _) ← v.feedStr [0x1b, 0x5b, 0x32, 0x3b, 0x33, 0x72]
+  let (v1, _) ← v0.feedStr [0x1b, 0x5b, 0x3f, 0x31, 0x30, 0x34, 0x37, 0x68]
+  let (v2, _) ← v1.resize 6 4
+  let (v3, _) ← v2.feedStr [0x1b, 0x5b, 0x3f, 0x31, 0x30, 0x34, 0x37, 0x6c]
+  pure (v0, v2, v3)
+
+example : ∃ v0 v2 v3, exRegion = some (v0, v2, v3)
+    ∧ (v0.terminal.topMargin, v0.terminal.bottomMargin, v0.terminal.rows) = (1, 2, 4)
+    ∧ Frame.emitted v0.parser [0x1b, 0x5b, 0x3f, 0x31, 0x30, 0x34, 0x37, 0x68] = [.decset [.altScreenBuffer]]
+    ∧ Frame.emitted v2.parser [0x1b, 0x5b, 0x3f, 0x31, 0x30, 0x34, 0x37, 0x6c] = [.decrst [.altScreenBuffer]]
+    ∧ setsMargins (.decset [.altScreenBuffer]) = false ∧ setsMargins (.decrst [.altScreenBuffer]) = false
+    ∧ v2.terminal.activeBufferType = .alternate ∧ v2.terminal.cols = 6
+    ∧ v3.terminal.activeBufferType = .primary
+    ∧ (v3.terminal.topMargin, v3.terminal.bottomMargin, v3.terminal.rows) = (1, 2, 4) := by
+  refine ⟨_, _, _, rfl, ?_⟩
+  decide
 
 end Avt.Props.C06
